@@ -41,7 +41,10 @@ def _obj(ctx, a):
 
 def _tet_verts(ctx, shift=0, tag=""):
     V = [list(v) for v in TET_V]
-    V[3] = [ctx.real("x3" + tag, 1, 3), ctx.real("y3" + tag, 0.5, 2), ctx.real("z3" + tag, 4, 8)]
+    if ctx.params.get("apex_dims", 3) == 1:
+        V[3] = [2, 1, ctx.real("z3" + tag, 4, 8)]
+    else:
+        V[3] = [ctx.real("x3" + tag, 1, 3), ctx.real("y3" + tag, 0.5, 2), ctx.real("z3" + tag, 4, 8)]
     return [[v[0] + shift, v[1], v[2]] for v in V]
 
 
@@ -75,7 +78,7 @@ def u_fix_normals(ctx):
         V += _tet_verts(ctx, shift=20 * b, tag=str(b))
         F0 += [[i + 4 * b for i in f] for f in TET_F]
     flips = [ctx.choose_bool("flip%d" % i) for i in range(len(F0))]
-    rot = [ctx.choice("rot%d" % i, 3) if ctx.params.get("rotate") else 0 for i in range(len(F0))]
+    rot = [ctx.choice("rot%d" % i, 3) if i in ctx.params.get("rotate", ()) else 0 for i in range(len(F0))]
     F = []
     for f, fl, r in zip(F0, flips, rot):
         g = f[::-1] if fl else list(f)
@@ -234,7 +237,7 @@ def u_loop(ctx):
     nv, nf = trimesh.remesh.subdivide_loop(_as(ctx, V), F0, iterations=ctx.params.get("iterations", 1))
     nf = np.asarray(nf)
     it = ctx.params.get("iterations", 1)
-    ctx.concrete_equal("face count x4 per iteration", len(nf), 4 * 4**it // 4 * 1 if it == 1 else 4 * 4**it // 4)
+    ctx.concrete_equal("face count x4 per iteration", len(nf), 4 * 4**it)
     mm = trimesh.Trimesh(vertices=_as(ctx, _obj(ctx, nv)), faces=nf, process=False)
     ctx.concrete_equal("watertight, consistently wound, Euler number 2", (bool(mm.is_watertight), bool(mm.is_winding_consistent), int(mm.euler_number)), (True, True, 2))
     ctx.concrete_equal("vertex count = V + E per iteration", len(_obj(ctx, nv)), 4 + 6 if it == 1 else 10 + 24)
@@ -250,8 +253,8 @@ def units(tier):
     T = tier == "thorough"
     us = [
         Unit("fix_normals-tet", u_fix_normals, params={"bodies": 1, "multibody": False}, key="fix_normals/1", functions=FUN, bounds="tetrahedron, apex symbolic in a box, EVERY subset of faces re-wound (16)", max_paths=40),
-        Unit("fix_normals-tet-rotated", u_fix_normals, params={"bodies": 1, "multibody": True, "rotate": True}, key="fix_normals/1", functions=FUN, bounds="as above, every face also listed from any of its 3 corners (16 x 81)", max_paths=1400, wall_s=400),
-        Unit("fix_normals-tet-normals-read", u_fix_normals, params={"bodies": 1, "multibody": False, "read_first": True}, key="fix_normals/1r", functions=FUN, bounds="as fix_normals-tet with face_normals read before the repair", max_paths=40, wall_s=300),
+        Unit("fix_normals-tet-rotated", u_fix_normals, params={"bodies": 1, "multibody": True, "rotate": (0, 1, 2, 3) if T else (1, 2)}, key="fix_normals/1", functions=FUN, bounds="as above, faces %s also listed from any of their 3 corners" % ("0-3 (16 x 81)" if T else "1, 2 (16 x 9)"), max_paths=1400, wall_s=600),
+        Unit("fix_normals-tet-normals-read", u_fix_normals, params={"bodies": 1, "multibody": False, "read_first": True, "apex_dims": 1}, key="fix_normals/1r", functions=FUN, bounds="as fix_normals-tet (apex height symbolic only) with face_normals read before the repair", max_paths=40, wall_s=300),
         Unit("fix_normals-two-bodies", u_fix_normals, params={"bodies": 2, "multibody": True}, key="fix_normals/2", functions=FUN, bounds="two disjoint tetrahedra, apexes symbolic, EVERY subset of the 8 faces re-wound (256), multibody=True", max_paths=300, wall_s=500),
         Unit("fill_holes-cube-triangle", u_fill_holes, params={"solid": "cube", "hole": "triangle"}, key="fill_holes/cube3", functions=FUN, bounds="cube of symbolic size, any one of its 12 triangles missing", max_paths=20),
         Unit("fill_holes-cube-quad", u_fill_holes, params={"solid": "cube", "hole": "quad"}, key="fill_holes/cube4", functions=FUN, bounds="cube of symbolic size, any one of its 6 sides (two triangles) missing", max_paths=10),
